@@ -708,8 +708,13 @@ class Daemon(object):
                 ser.register_type_replacement(type(obj_or_class), _pyro_obj_to_auto_proxy)
         # register the object/class in the mapping
         self.objectsById[obj_or_class._pyroId] = obj_or_class if not weak else weakref.ref(obj_or_class)
-        if weak: weakref.finalize(obj_or_class,self.unregister,objectId)
+        if weak: weakref.finalize(obj_or_class, self.__unregisterCollected, objectId, self.objectsById[objectId])
         return self.uriFor(objectId)
+
+    def __unregisterCollected(self, objectId, reference):
+        # a weakly registered object was garbage collected: forget its id, unless the id belongs to another object by now
+        if self.objectsById.get(objectId) is reference:
+            self.unregister(objectId)
 
     def unregister(self, objectOrId):
         """
